@@ -124,7 +124,7 @@ class Chain:
 def run(tier, seed, only=None):
     rep = report.Report(PID, tier, seed)
     timeout = 20.0 if tier == "quick" else 90.0
-    cfg = [("symL_ny2", 2, True, "tube"), ("full_ny3", 3, False, "tube"), ("symL_ny3", 3, True, "tube"), ("full_ny5", 5, False, "tube")]
+    cfg = [("symL_ny2", 2, True, "tube"), ("full_ny3", 3, False, "tube"), ("symL_ny3[numpy flag]", 3, np.True_, "tube"), ("full_ny5[numpy flag]", 5, np.False_, "tube")]
     if tier == "thorough":
         cfg += [("symL_ny4", 4, True, "tube"), ("symL_ny3_wb", 3, True, "wingbox"), ("full_ny7", 7, False, "tube"), ("full_ny9", 9, False, "tube"), ("symL_ny6", 6, True, "tube")]
     for (cn, ny, symm, kind) in cfg:
